@@ -104,6 +104,10 @@ def grammar_tags(rng, cigar, n=None, repeats=True, forced=None, ds=True):
                     tag = "zq"
         used.append(tag)
         out.append(f"{tag}:{ty}:{grammar_value(rng, ty)}")
+    if rng.random() < 0.004:
+        # the grammar puts no bound on the number of digits of an integer field (an interpreter does:
+        # CPython refuses int() of more than 4300 digits by default)
+        out.insert(rng.randint(0, len(out)), "zn:i:" + rng.choice(["", "-", "+"]) + "".join(rng.choice("0123456789") for _ in range(rng.randint(4301, 9000))))
     if ds and rng.random() < 0.3:
         out.insert(rng.randint(0, len(out)), f"ds:Z:{grammar_value(rng, 'Z')}")
     if rng.random() < 0.5:
@@ -148,7 +152,11 @@ def make_record(g, rng, walk, name, offsets="any", tags="safe", mapq=None, cigar
                 bounds.append(bounds[-1] + x)
             ps = rng.choice(bounds[:-1])
             pe = rng.choice([b for b in bounds if b > ps])
-    cg, qspan, matches, block = rand_cigar(rng, pe - ps)
+    if not cigar and pe - ps > 5_000:
+        # (no CIGAR wanted: do not build a megabase one just to derive the other columns)
+        cg, qspan, matches, block = None, pe - ps, pe - ps - min(7, pe - ps - 1), pe - ps
+    else:
+        cg, qspan, matches, block = rand_cigar(rng, pe - ps)
     qs = rng.choice([0, 0, rng.randint(0, 50)])
     qlen = qs + qspan + rng.choice([0, 0, rng.randint(0, 50)])
     if mapq is None:
